@@ -7,7 +7,6 @@ import SqiGen.VerifGuard
        -> guard=<0|1> inrange=<0|1> safe=<0|1> bad=<first out-of-bounds access | ->
    verif.dec <dim2|heur> <lvl> <gen|none> <gen|0|1> <pk: c a h0 h1> <sig fields> <oracle fields>
        -> v=<0|1> stage=<0..4>
-   verif.trav <dim2|heur> <lvl> <pk> <sig fields> -> e4:<log2_of_e>,<e_half>,<row>,<max current>,<max column>,<final current>;th:<n>,<slots>,<max index>
    verif.checks -> which validity checks the translator found in the C text; nist = per entry point of src/sqisign.c:
                    1 stub returning non-zero, 0 stub returning 0, w wired to real code
    sig fields  dim2: c a bt trl m00 m01 m10 m11 chall challB ha0 ha1 hc0 hc1      oracle: ker o1 o2 o3 o4 o5 o6 split h
@@ -69,20 +68,6 @@ def accLine (g inr : Bool) (l : List Access) : String :=
     | none => "-"
   s!"guard={b2s g} inrange={b2s inr} safe={b2s (allOk l)} bad={bad}"
 
-/-- the traversal maxima the access model predicts (compared with the H3 trace of the real loops) -/
-def travLine (K : Lvl) (isogLen n rowIdx2 : Int) (adj : Nat) : String :=
-  let eHalf : Nat := ((isogLen / 2) % (2 : Int) ^ 64).toNat
-  let tmp := eHalf % 256
-  let log2e := 2 * (if tmp = 0 then 0 else Nat.log2 tmp + 1)
-  let row4 : Int := (K.f : Int) - isogLen
-  let e4 := match sim4 (K.strat4.getD row4.toNat []) eHalf log2e with
-    | some (cur, maxC, maxS) => s!"e4:{log2e},{eHalf},{row4},{maxC},{maxS},{if isogLen % 2 = 1 then 1 else cur}"
-    | none => "e4:stuck"
-  let th := match sim2 (K.strat2.getD rowIdx2.toNat []) n.toNat adj with
-    | some (slots, maxI) => s!"th:{n},{slots},{maxI}"
-    | none => "th:stuck"
-  e4 ++ ";" ++ th
-
 def handle : List String → Option String
   | "verif.checks" :: [] =>
       let nist := String.join (SqiGen.VerifGuard.nistApi.map fun e => if e.2.1 then b2s (decide (e.2.2 ≠ 0)) else "w")
@@ -99,16 +84,6 @@ def handle : List String → Option String
       let s ← sigH? (rest.drop 4)
       let guard ← (match gm with | "gen" => some SqiGen.VerifGuard.heur | "none" => some noGuardHeur | _ => none)
       pure (accLine (guard K pk s) (sigInRangeHeur K pk s) (verifyAccessesHeur K guard pk s))
-  | "verif.trav" :: "dim2" :: lv :: rest => do
-      let K ← lvl? lv
-      let s ← sigD? (rest.drop 4)
-      let n : Int := (K.respLen : Int) - s.trl
-      pure (travLine K ((K.f : Int) - s.bt) n ((K.f : Int) - n) 0)
-  | "verif.trav" :: "heur" :: lv :: rest => do
-      let K ← lvl? lv
-      let s ← sigH? (rest.drop 4)
-      let n : Int := (K.heurBound : Int) - s.trl
-      pure (travLine K ((K.heurChall : Int) + s.trl) n ((K.f : Int) - n + 2) 2)
   | "verif.dec" :: "dim2" :: lv :: gm :: cm :: rest => do
       let K ← lvl? lv
       let pk ← pk? (rest.take 4)
